@@ -22,6 +22,8 @@ static int force_small = 0;
 static size_t pick_len(int profile) {
   uint32_t r = d_rn(100);
   if (force_small) return 5 + d_rn(100);
+  if (profile == 5 || profile == 7) return 5 + d_rn(60);                       /* auto: tiny values, flush driven */
+  if (profile == 6) return 150000 + d_rn(550000);              /* autobig: every output file closes after 2-6 entries */
   if (profile == 2) { /* bigval */
     if (r < 30) return 200000 + d_rn(400000);
     if (r < 60) return 20000 + d_rn(40000);
@@ -37,16 +39,19 @@ static size_t pick_len(int profile) {
   return 5 + d_rn(3000);
 }
 
+static int force_key = -1;
 static void do_put(int profile) {
-  int k = d_rn(NK), id = nextid++, rc; size_t len = pick_len(profile);
+  int k = force_key >= 0 ? force_key : profile == 6 ? (int)d_rn(4) * 5 : d_rn(NK), id = nextid++, rc; size_t len = pick_len(profile);
   char *v = d_mkval(id, len); ldb_slice_t key = d_key(k), val = ldb_slice(v, len < 5 ? 5 : len);
   ldb_writeopt_t wo = *ldb_writeopt_default; wo.sync = d_rn(8) == 0;
+  EV("call_write", "\"ops\":[[%d,%d]]", k, id);
   rc = ldb_put(db, &key, &val, &wo);
   EV("put", "\"k\":%d,\"v\":%d,\"len\":%lu,\"sync\":%d,\"rc\":%d", k, id, (unsigned long)val.size, wo.sync, rc);
   free(v);
 }
 static void do_del(void) {
   int k = d_rn(NK), rc; ldb_slice_t key = d_key(k);
+  EV("call_write", "\"ops\":[[%d,0]]", k);
   rc = ldb_del(db, &key, NULL);
   EV("del", "\"k\":%d,\"rc\":%d", k, rc);
 }
@@ -58,6 +63,7 @@ static void do_batch(int profile) {
     else { int id = nextid++; size_t len = pick_len(profile) % 70000; char *v = d_mkval(id, len); ldb_slice_t val = ldb_slice(v, len < 5 ? 5 : len);
            ldb_batch_put(b, &key, &val); free(v); p += sprintf(ops + p, "%s[%d,%d]", j ? "," : "", kk, id); }
   }
+  EV("call_write", "\"ops\":[%s]", ops);
   rc = ldb_write(db, b, NULL);
   EV("batch", "\"ops\":[%s],\"rc\":%d", ops, rc);
   ldb_batch_destroy(b);
@@ -160,6 +166,7 @@ static void do_immhold(int profile) {
   int i;
   do_flush(); /* start from an empty memtable with no flush pending */
   { int k = d_rn(NK), id = nextid++, rc; size_t len = O.o.write_buffer_size + 4096; char *v = d_mkval(id, len); ldb_slice_t key = d_key(k), val = ldb_slice(v, len);
+    EV("call_write", "\"ops\":[[%d,%d]]", k, id);
     rc = ldb_put(db, &key, &val, NULL); EV("put", "\"k\":%d,\"v\":%d,\"len\":%lu,\"sync\":0,\"rc\":%d", k, id, (unsigned long)len, rc); free(v); }
   force_small = 1;
   lcdb_verif_hold(20, 1);
@@ -177,7 +184,7 @@ int main(int argc, char **argv) {
   if (argc < 5) { fprintf(stderr, "usage: seq seed steps trace dbdir [profile] [optbits]\n"); return 2; }
   seed = atoi(argv[1]); steps = atoi(argv[2]);
   snprintf(dbdir, sizeof(dbdir), "%s", argv[4]);
-  if (argc > 5) { const char *p = argv[5]; profile = !strcmp(p, "deep") ? 1 : !strcmp(p, "bigval") ? 2 : !strcmp(p, "iter") ? 3 : !strcmp(p, "snap") ? 4 : 0; }
+  if (argc > 5) { const char *p = argv[5]; profile = !strcmp(p, "deep") ? 1 : !strcmp(p, "bigval") ? 2 : !strcmp(p, "iter") ? 3 : !strcmp(p, "snap") ? 4 : !strcmp(p, "auto") ? 5 : !strcmp(p, "autobig") ? 6 : !strcmp(p, "seek") ? 7 : 0; }
   d_seed((uint64_t)seed * 1000003ULL + (uint64_t)profile);
   d_init_keys();
   bits = (argc > 6 && argv[6][0] != '-') ? (uint32_t)strtoul(argv[6], NULL, 0) : d_rnd();
@@ -189,22 +196,39 @@ int main(int argc, char **argv) {
   lcdb_verif_set_keep(keep);
   EV("Reset", "\"seed\":%d,\"profile\":%d,\"bits\":%u", seed, profile, bits);
   d_ev_opts(&O, NULL);
+  d_ev_keys();
   rc = ldb_open(dbdir, &O.o, &db);
   EV("open", "\"rc\":%d", rc);
   if (rc != 0) { lcdb_verif_close(); return 3; }
   for (i = 0; i < steps; i++) {
     uint32_t op = d_rn(1000);
     /* weights per profile: put del batch get snap rel iter_new iter_free it scan flush compact compact_all reopen immhold */
-    static const int W[5][15] = {
+    static const int W[8][15] = {
       {260, 60, 50, 170, 40, 30, 40, 20, 190, 20, 35, 50, 6, 8, 6},
       {330, 80, 60, 120, 30, 25, 20, 15, 60, 15, 120, 100, 5, 10, 5},
       {300, 40, 60, 160, 60, 30, 30, 20, 120, 20, 50, 80, 8, 8, 8},
       {120, 40, 30, 60, 30, 20, 80, 30, 480, 40, 25, 30, 3, 4, 8},
-      {250, 70, 50, 180, 110, 70, 40, 20, 80, 30, 40, 70, 6, 6, 6}};
+      {250, 70, 50, 180, 110, 70, 40, 20, 80, 30, 40, 70, 6, 6, 6},
+      /* auto: only automatic compactions (size / seek triggered); many one-key level-0 files */
+      {300, 50, 20, 200, 40, 30, 20, 10, 60, 20, 240, 0, 0, 6, 4},
+      /* autobig: large values, many versions pinned by snapshots, automatic compactions only */
+      {420, 30, 0, 200, 120, 60, 20, 10, 100, 20, 10, 0, 0, 6, 4},
+      /* seek: read-heavy over a multi-level layout, so that seek-triggered compactions (allowed_seeks) fire */
+      {60, 10, 10, 760, 10, 10, 10, 5, 40, 10, 30, 30, 0, 5, 10}};
     int c = 0, a = 0;
     for (c = 0; c < 15; c++) { a += W[profile][c]; if ((int)op < a) break; }
     switch (c) {
-      case 0: do_put(profile); break; case 1: do_del(); break; case 2: do_batch(profile); break; case 3: do_get(); break;
+      case 0:
+        if (profile == 5 && d_rn(8) == 0) {
+          /* a burst of tables each holding one lone key: level-0 files that do not overlap each other, so that a
+             size-triggered level-0 compaction has a single input file */
+          int j, base = d_rn(2), stride = 3; /* few distinct key sets, so that a later burst lands above the narrow files of an earlier one */
+          for (j = 0; j < 5; j++) {
+            do_flush(); force_small = 1; force_key = (base + stride * j) % NK; do_put(profile); force_key = -1; force_small = 0; do_flush();
+            if (d_rn(2)) do_get();
+          }
+        } else do_put(profile);
+        break; case 1: do_del(); break; case 2: do_batch(profile); break; case 3: do_get(); break;
       case 4: do_snap(); break; case 5: do_rel(); break; case 6: do_iter_new(); break; case 7: do_iter_free(); break;
       case 8: do_it(); break; case 9: do_scan(); break; case 10: do_flush(); if (d_rn(3) == 0) quiesce(); break;
       case 11: do_compact(); if (d_rn(2) == 0) quiesce(); break; case 12: do_compact_all(); quiesce(); break;
